@@ -215,7 +215,9 @@ ADD5 = {
  "C05": " Round 5: SEQ-BLOCKEND, WR-READFROM.",
  "C13": " Round 5: SEQ-BLOCKEND, WR-READFROM.",
  "C14": " Round 5: GL-GLOBAL no longer skips methods named init.",
- "C16": " Round 5: EF-EOF over the LZMA2 reader, decoder dictionary window guards, WR-READFROM.",
+ "C16": " Round 5: EF-EOF over the LZMA2 reader, decoder dictionary window guards, WR-READFROM; TM-OPMARGIN.",
+ "C01": " TM-OPMARGIN (opLenMargin covers the largest operation plus closing the range coder; found and fixed a defect, DESIGN 12.6).",
+ "C08": " TM-OPMARGIN (opLenMargin covers the largest operation plus closing the range coder; found and fixed a defect, DESIGN 12.6).",
 }
 for pid, text in ADD5.items():
     ADD4[pid] = ADD4.get(pid, "") + text
